@@ -44,7 +44,7 @@ def usage(nflags):
         for pi, (s, v) in enumerate(outs):
             ek = scn.exit_kind(v)
             tag = 'p%d' % pi
-            if isinstance(v, E.Raise) and v.exc not in ('BlockException',):
+            if isinstance(v, E.Raise) and v.exc not in ('BlockException', 'BlockBaseException'):
                 none_capable = z3.Not(z3.Or(*[capable[c] for c in COMPS]))
                 r.oblige(s, 'refuses-only-with-PGPError-when-no-component-is-capable-and-enforcement-is-on/' + tag,
                          z3.And(z3.BoolVal(v.exc.split(':')[0] == 'PGPError' and nflags > 0), none_capable, enforce), v.where)
